@@ -109,6 +109,9 @@ class generic(_OpsMixin, metaclass=_ScalarMeta):
 
     # conversions
     def item(self):
+        if is_sym(self.val):
+            # a python-level scalar with symbolic value: stays symbolic (weak), concretised only on int()/bool()
+            return self.dtype.type(self.val, _dt=self.dtype, weak=True)
         return _concrete(self.val, self.dtype)
 
     def __int__(self):
@@ -404,15 +407,35 @@ def _cast(v, src, dst):
             return _wrap_int(int(v), dst)
         if src.kind == "f":
             if is_sym(v):
-                raise ShimUnsupported("float->int symbolic")
+                return _uf_cast(v, src, dst)
             return _wrap_int(int(v), dst)
     if dst.kind == "f":
         if is_sym(v):
             if src.kind == "f" and src.itemsize == dst.itemsize:
                 return v
-            raise ShimUnsupported("->float symbolic")
+            return _uf_cast(v, src, dst)
+        if E().notes.get("float_bits"):
+            return _float_bits(float(v), dst)
         return float(v)
     raise ShimUnsupported(f"cast {src}->{dst}")
+
+
+def _float_bits(x, dt):
+    import struct
+    fmt = {2: ("<e", "<H"), 4: ("<f", "<I"), 8: ("<d", "<Q")}[dt.itemsize]
+    return z3.BitVecVal(struct.unpack(fmt[1], struct.pack(fmt[0], x))[0], dt.bits)
+
+
+def _uf_cast(v, src, dst):
+    """numeric conversions involving floats are numpy's C loops: uninterpreted per (source, target) dtype (DESIGN 3.3)"""
+    E().has_bv = True
+    if z3.is_bool(v):
+        if dst.kind == "f":
+            return z3.If(v, _float_bits(1.0, dst), _float_bits(0.0, dst))
+        v = z3.If(v, 1, 0)
+    out_sort = z3.BitVecSort(dst.bits) if dst.kind == "f" or True else z3.IntSort()
+    f = z3.Function("uf_cast_%s_%s_%s" % (src.name, dst.name, "bv" if z3.is_bv(v) else "int"), v.sort(), out_sort)
+    return f(v)
 
 
 def _ite(c, a, b):
@@ -655,7 +678,8 @@ class ndarray(_OpsMixin):
         return _concrete(self._cells()[0], self.dtype)
 
     def tolist(self):
-        return _nest([_concrete(c, self.dtype) for c in self._cells()], self.shape)
+        # python-level values; symbolic cells stay symbolic as weak (python-like) scalars
+        return _nest([c if not is_sym(c) else self.dtype.type(c, _dt=self.dtype, weak=True) for c in self._cells()], self.shape)
 
     def copy(self):
         return ndarray(_Store(self._cells()), list(range(self.size)), self.shape, self.dtype)
@@ -1289,6 +1313,8 @@ def _arith(op, a, b):
         return a2 - b2
     if op == "mul":
         if is_sym(a) and is_sym(b):
+            if E().notes.get("uf_mul") and z3.is_int(a2) and z3.is_int(b2):
+                return z3.Function("uf_mul_int", z3.IntSort(), z3.IntSort(), z3.IntSort())(a2, b2)
             # nonlinear: concretise the right operand
             bv = E().concretize(b)
             return _arith("mul", a, bv)
@@ -2083,12 +2109,18 @@ def prod(a, axis=None):
     return multiply.reduce(asarray(a), axis=axis)
 
 
-def savez(*a, **k):
-    raise ShimUnsupported("savez")
+_FILES = {}
 
 
-def load(*a, **k):
-    raise ShimUnsupported("load")
+def savez(file, **arrays):
+    """environment stub (DESIGN 3.2.7): numpy's documented round trip -- equal, unaliased arrays by name"""
+    _FILES[str(file)] = {k: asarray(v).copy() for k, v in arrays.items()}
+
+
+def load(file, **kw):
+    if str(file) not in _FILES:
+        raise FileNotFoundError(str(file))
+    return {k: v.copy() for k, v in _FILES[str(file)].items()}
 
 
 def broadcast(*a):
